@@ -42,6 +42,26 @@ func genC02(r *sim.Rand, tier string) *sim.Case {
 	}
 	maintPct := r.Pick(20, 40, 60)
 	next := map[string]int{}
+	// "long chains" shape (1 in 6): inline values of a few KiB, so that the version
+	// chain of one key spans several 8 KiB blocks, with table targets of 512 bytes,
+	// so that every compaction into a level's sorted run splits its output; all
+	// versions written in increasing order, pushed down level by level, then read.
+	if forceOrder < 0 && r.Intn(6) == 0 {
+		c.Cfg["order"], c.Cfg["cfs"] = 0, 1
+		c.Cfg["memtable_size"], c.Cfg["value_threshold"], c.Cfg["value_scale"], c.Cfg["sst_max"] = 1<<20, 1<<20, 48, 512
+		c.Cfg["memtable_art"] = 0
+		for vi := 0; vi < 6; vi++ {
+			for ki := 0; ki < nkeys; ki++ {
+				c.Ops = append(c.Ops, sim.Op{K: "vset", A: 0, B: int64(ki), C: 5, D: int64(vi)})
+			}
+			if vi%2 == 1 || r.Intn(2) == 0 {
+				c.Ops = append(c.Ops, sim.Op{K: "rotate"}, sim.Op{K: "flushall"})
+			}
+		}
+		c.Ops = append(c.Ops, sim.Op{K: "rotate"}, sim.Op{K: "flushall"},
+			sim.Op{K: "compact", A: 0}, sim.Op{K: "compact", A: 6, B: 1}, sim.Op{K: "compact", A: 6, B: int64(r.Intn(3))}, sim.Op{K: "compactonce"})
+		n = 4 + r.Intn(6)
+	}
 	for i := 0; i < n; i++ {
 		if r.Intn(100) < maintPct {
 			c.Ops = append(c.Ops, GenMaint(r))
